@@ -18,13 +18,13 @@ from verif.specs.sx import X
 LEVEL = 'other'
 EXPECTED_MIN = {'quick': 12, 'thorough': 16}
 EXPLANATION = ('PROVED stage by stage with symbolic inputs at each stage boundary: dof axes in the subtree-CoM frame (cdof) for hinge / slide / free dofs and stacks under an arbitrary '
-               'parent pose (exact normal form); link velocities cd = sum of ancestor dofs, cdofd = cd x cdof; mass.matrix = composite-rigid-body form with the ancestor mask, '
+               'parent pose (exact normal form); link velocities cd = sum of ancestor dofs, cdofd = cd x cdof; link inertias about the tree CoM (cinr) = R I R^T + m(|h|^2 E - h h^T) with first moment m h, whose quadratic form on any motion is the sum of squares (R^T w).I(R^T w) + m|v - h x w|^2; mass.matrix = composite-rigid-body form with the ancestor mask, '
                'symmetry and armature; dynamics.inverse = recursive Newton-Euler form; passive force -k q - d qd; qf_smooth = passive - bias + tau; integrator: (M + dt D) qdd = '
                'qf, qd\' = qd + dt qdd, q\' = q + dt qd\' and the free-joint quaternion update.  The two Featherstone theorems joining the stages are paper lemmas.  BOUNDED (not '
                'proof): every term and one contact-free step against the MuJoCo binary on generated models (incl. slides on rotated bodies, mixed stacks).')
 TRUSTED = ['Featherstone: CRBA / RNEA theorems (paper lemmas)', 'jax.scipy.linalg.solve cut with the assumed contract A X = B', 'spec transcribed from MuJoCo documentation; equality with the binary only bounded',
            'brax.math.normalize through its verified contract']
-ASSUMPTIONS = ['exact reals', 'listed stack words / forests <= 3 links', 'positive definiteness of the mass matrix is checked only in the bounded stand-in (eigenvalues)']
+ASSUMPTIONS = ['exact reals', 'listed stack words / forests <= 3 links', 'positive definiteness: z^T M z = sum_l v_l.(cinr_l v_l) + sum armature z^2 with v_l = sum of ancestor dofs cdof_k z_k is the crb_form clause read as a quadratic form, and each summand is the proved sum of squares (cinr clause), so M is positive SEMI-definite for every model with m >= 0 and I >= 0; STRICT definiteness additionally needs I > 0, m > 0 and linearly independent dof axes per link (facts about the MuJoCo-compiled model, not proved) -- eigenvalues are checked in the bounded stand-in']
 BOUNDED_RULE = 'generator models x random (q, qd, ctrl); non-trivial = distinct (model, state) pairs'
 
 CUT = ('brax.math:normalize',)
@@ -156,6 +156,87 @@ def cdof(word, mode, tiers):
                     'root_com = mass-weighted mean of the link CoMs (total mass != 0); dof k: (ang, vel) = (a_w, a_w x (root_com - anchor_w)) for a hinge, (0, a_w) for a slide, with '
                     'a_w = R(parent o link o preceding joints) axis; free dofs: world translations and body-frame rotations about root_com; cd_l = sum of ancestor dofs cdof qd; '
                     'cdofd_k = cd_(before k) x cdof_k; for ALL parent poses, link transforms, anchors, unit axes, masses', run, backend='ring', tiers=tiers, budget=900)
+
+
+def cinr(word, mode, tiers):
+  """link inertias about the tree's centre of mass (the 6x6 blocks the mass matrix and the bias force are built from) + their sum-of-squares form"""
+  tag = ('f+' if mode == 'free' else '') + word
+  xml = physsys.xml_free() if word == '' else (physsys.xml_free_parent if mode == 'free' else physsys.xml_world_root)(word)
+
+  def run():
+    from verif.engine.opaque import cut
+    from brax.generalized import dynamics
+    from brax.base import Motion
+    A = RingAlg()
+    sys = physsys.load(xml)
+    ss = physsys.SymSys(A, sys)
+    ss.declare_units()
+    q, qd = ss.state()
+    ss.slide_hints(q)
+    st, xp, xr = _state(A, sys, q, qd)
+    n = sys.num_links()
+    mass = A.arr('m', (n,))
+    ipos = A.arr('ip', (n, 3))
+    irot = A.arr('ir', (n, 4))
+    ii = A.arr('I', (n, 3, 3))
+    for l in range(n):
+      A.unit(list(irot[l]))
+      for a in range(3):
+        for b in range(a):
+          ii[l][a][b] = ii[l][b][a]
+    inertia = sys.link.inertia.replace(mass=Sym(mass), i=Sym(ii), transform=sys.link.inertia.transform.replace(pos=Sym(ipos), rot=Sym(irot)))
+    symsys = ss.sys.replace(link=ss.sys.link.replace(inertia=inertia))
+    w, v = A.arr('w', (n, 3)), A.arr('v', (n, 3))
+
+    def f(s, state, mw, mv):
+      r = dynamics.transform_com(s, state)
+      m = Motion(ang=mw, vel=mv)
+      quad = jax.vmap(lambda c, mm: mm.dot(c.mul(mm)))(r.cinr, m)
+      return {'i': r.cinr.i, 'fm': r.cinr.transform.pos, 'mass': r.cinr.mass, 'quad': quad}
+    with cut(*CUT):
+      out = sym_call(Interp(A, cuts=CUTS), f, symsys, st, Sym(w), Sym(v))
+    Xs = lambda vec: [X(e, A) for e in vec]
+    coms = [sx.vadd(Xs(xp[i]), sx.qrot(Xs(xr[i]), Xs(ipos[i]))) for i in range(n)]
+    mt, num = X(0, A), [X(0, A)] * 3
+    for i in range(n):
+      mt = mt + X(mass[i], A)
+      num = sx.vadd(num, sx.vscale(coms[i], X(mass[i], A)))
+    rc = [e / mt for e in num]
+    res = []
+    for l in range(n):
+      h = sx.vsub(coms[l], rc)
+      R = sx.qmat(sx.qmul(Xs(xr[l]), Xs(irot[l])))
+      I = [[X(ii[l][a][b], A) for b in range(3)] for a in range(3)]
+      m = X(mass[l], A)
+      hh = sx.dot(h, h)
+      want_i = np.empty((3, 3), dtype=object)
+      for a in range(3):
+        for b in range(3):
+          acc = X(0, A)
+          for c in range(3):
+            for d in range(3):
+              acc = acc + R[a][c] * I[c][d] * R[b][d]
+          acc = acc + m * ((hh if a == b else X(0, A)) - h[a] * h[b])
+          want_i[a, b] = acc.v
+      res.append(ring_equal(A, out['i'][l], want_i, name='cinr[%d].i = R I R^T + m(|h|^2 E - h h^T)' % l))
+      res.append(ring_equal(A, out['fm'][l], np.array([(m * e).v for e in h], dtype=object), name='cinr[%d] first moment = m h' % l))
+      res.append(ring_equal(A, np.array([out['mass'][l]], dtype=object), np.array([mass[l]], dtype=object), name='cinr[%d].mass' % l))
+      # sum-of-squares form of the kinetic-energy quadratic form: (R^T w) . I (R^T w) + m |v - h x w|^2
+      wl = [sum((R[c][a] * X(w[l][c], A) for c in range(3)), X(0, A)) for a in range(3)]
+      rot_part = sum((wl[a] * I[a][b] * wl[b] for a in range(3) for b in range(3)), X(0, A))
+      u = sx.vsub(Xs(v[l]), sx.cross(h, Xs(w[l])))
+      res.append(ring_equal(A, np.array([out['quad'][l]], dtype=object), np.array([(rot_part + m * sx.dot(u, u)).v], dtype=object), name='motion . (cinr[%d] motion) = w_b.I w_b + m|v - h x w|^2' % l))
+    r = combine(res)
+    r.stats.update({'peak_terms': A.peak})
+    if r.verdict == REFUTED:
+      from verif.bounded import oracles
+      r.replay = oracles.dynamics_vs_mujoco(6, 2, seed()).replay or {'reproduced': False}
+    return r
+  return Obligation('C02/transform_com/cinr[%s]' % (tag or 'f'), 'brax.generalized.dynamics:transform_com (+ Transform.do(Inertia), Inertia.mul, Motion.dot)',
+                    'for ALL link poses, inertial frames (offset, unit quaternion), symmetric inertia tensors and masses (total mass != 0): cinr_l is the link inertia about the tree centre of mass '
+                    'in world orientation: i = R I R^T + m(|h|^2 E - h h^T), first moment m h, h = com_l - root_com, R = R(x.rot * inertia.rot); and its quadratic form on ANY motion (w, v) '
+                    'is the sum of squares  (R^T w).I (R^T w) + m |v - h x w|^2  (= twice the kinetic energy of the link): positive semi-definite whenever I is and m >= 0',
+                    run, backend='ring', tiers=tiers, budget=900)
 
 
 def sym_inertia(A, n, prefix='c'):
@@ -417,6 +498,7 @@ def obligations(tier):
     t = Q if name in ('chain3[1,2,1]', 'two-trees[f,1;2]') else Th
     obs.append(crb_form(name, t))
     obs.append(rne_form(name, t))
+  obs += [cinr('h', 'free', Q), cinr('sh', 'root', Q), cinr('', 'root', Th), cinr('hs', 'free', Th)]
   obs += [passive_forward(), integrate_step(), integrate_free(), bounded(tier)]
   # "total smooth joint force including actuation": the actuation term is C11's contract; the clause that matters for floating-base models (q index != qd index) is proved here too
   from verif.contracts import C11
